@@ -244,3 +244,44 @@ func refFailure(err error) *harness.Failure {
 	}
 	return harness.Failf("reference evaluates", err.Error(), "generator produced an expression outside the reference fragment")
 }
+
+// sweepContexts evaluates ONE compiled expression at every node of the document
+// (at most 12, in document order, then the first again) and compares each value with
+// the reference at that node. Relative arguments are empty at some nodes and not at
+// others, which is the history that state carried from one evaluation into the next
+// needs. Only for properties whose domain is closed under a change of context node
+// (C07, C09: typed operands; not C08, whose sum()/mod operands are chosen per context).
+func sweepContexts(l *harness.Live) *harness.Failure {
+	if !reuseSampled(l) {
+		return nil
+	}
+	e, f := compileLive(l)
+	if f != nil {
+		return f
+	}
+	nodes := l.Doc.Nodes
+	if len(nodes) > 12 {
+		nodes = nodes[:12]
+	}
+	nodes = append(append([]*xdoc.Node{}, nodes...), nodes[0])
+	for _, n := range nodes {
+		rv, err := xref.Eval(&xref.Env{Doc: l.Doc}, l.AST, n)
+		if err != nil {
+			continue // out of the reference's domain at this node: nothing to compare (the call is skipped)
+		}
+		x := *l
+		x.Ctx = n
+		got, f := evalWith(e, &x)
+		if f != nil {
+			if f == cappedFailure {
+				return nil
+			}
+			f.Note = "one compiled expression evaluated node by node, at " + n.Desc() + ": " + f.Note
+			return f
+		}
+		if want := harness.FromRef(rv); !got.Equal(want) {
+			return harness.Failf(want.String(), got.String(), "one compiled expression evaluated node by node: at %s the value differs from the XPath 1.0 value (a fresh compile is right there)", n.Desc())
+		}
+	}
+	return nil
+}
